@@ -157,3 +157,31 @@ CONTRACTS.append(Contract(
                        invariant=[('one-element-per-item-so-far', 'len(array_xml) == _i')])},
     ensures=[('a-PROPERTY.ARRAY-element', 'isinstance(result, _cim_xml.PROPERTY_ARRAY)')],
     raises={}))
+
+# CIMQualifier.tocimxml: value, type and all four flavors are handed over
+FLAVORS = dict(propagated=Opt(Bool), overridable=Opt(Bool), tosubclass=Opt(Bool), toinstance=Opt(Bool), translatable=Opt(Bool))
+qualifier_c = Contract(
+    X + 'QUALIFIER.__init__', trusted=True, raises={},
+    requires=[('every-attribute-and-flavor-is-handed-over',
+               'name == caller_self.name and type_ == caller_self.type and propagated == caller_self.propagated '
+               'and overridable == caller_self.overridable and tosubclass == caller_self.tosubclass '
+               'and toinstance == caller_self.toinstance and translatable == caller_self.translatable'),
+              ('NULL-value-means-no-value-child', '(value is None) == (caller_self.value is None)')])
+CONTRACTS.append(Contract(
+    O + 'CIMQualifier.tocimxml', label='scalar value',
+    params={'self': Obj('CIMQualifier', name=Str, type=Str, value=SCALAR_VALUE, **FLAVORS)},
+    consts={'SEND_VALUE_NULL': Bool},
+    callees={'VALUE.__init__': value_c, 'QUALIFIER.__init__': qualifier_c, 'atomic_to_cim_xml': atomic_c},
+    ensures=[('a-QUALIFIER-element', 'isinstance(result, _cim_xml.QUALIFIER)')],
+    raises={}))
+CONTRACTS.append(Contract(
+    O + 'CIMQualifier.tocimxml', label='array value',
+    params={'self': Obj('CIMQualifier', name=Str, type=Str, value=Opt(ListOf(('opt', 'str'))), **FLAVORS)},
+    consts={'SEND_VALUE_NULL': Bool},
+    callees={'VALUE.__init__': value_c, 'VALUE_NULL.__init__': value_null_c, 'VALUE_ARRAY.__init__': value_array_c,
+             'QUALIFIER.__init__': qualifier_c, 'atomic_to_cim_xml': atomic_item_c},
+    kinds={'array_xml': 'ref'},
+    loops={1: LoopSpec(target='v', types={'v': Opt(Str)}, modifies=['array_xml'],
+                       invariant=[('one-element-per-item-so-far', 'len(array_xml) == _i')])},
+    ensures=[('a-QUALIFIER-element', 'isinstance(result, _cim_xml.QUALIFIER)')],
+    raises={}))
